@@ -25,7 +25,7 @@ EXPLANATION = (
 def run(S):
     kt = T.KT = T.KindTable(S.driver, S.adts)
     N = 3 if S.tier == 'quick' else 4
-    K = 3 if S.tier == 'quick' else 5
+    K = 3 if S.tier == 'quick' else 4
     found = []
     found += markup.explore_tokens(S, N)
     if not found:
